@@ -10,7 +10,7 @@ from appsweep import *
 def bounds(t):
     if t == 'quick': return dict(target_cap=4, content_cap=2, methods=['GET'], entries=['execute', 'legacy'], ranges=['none'], first=['slash'],
                                  grammar=dict(methods=['GET'], ranges=['none'], leads=['/', ''], nsegs=[1, 2, 3], tails=['']))
-    return dict(target_cap=6, content_cap=2, methods=['GET', 'HEAD', 'OPTIONS', 'POST'], entries=['execute', 'legacy'], ranges=['none', 'open'], first=['slash', 'other'], other_cap=3,
+    return dict(target_cap=5, content_cap=2, methods=['GET', 'HEAD'], entries=['execute', 'legacy'], ranges=['none', 'open'], first=['slash', 'other'], other_cap=3, long_only_get=True,
                 grammar=dict(methods=['GET', 'HEAD'], ranges=['none', 'open'], leads=['/', '', '//h/', 'http://h/'], nsegs=[1, 2, 3], tails=['', '/', '?a', '#a']))
 
 
@@ -117,6 +117,7 @@ def main():
                 for n in range(1, B['target_cap'] + 1):
                     for first in B['first']:
                         if first == 'other' and n > B.get('other_cap', 99): continue
+                        if B.get('long_only_get') and n >= B['target_cap'] and (m != 'GET' or rg != 'none'): continue
                         cases.append(dict(entry=entry, method=m, range=rg, tlen=n, first=first))
     # grammar family (the statement's quantifier): lead + segments drawn from SEGMENT_WORDS (dot segments, names, encoded dots and
     # separators in both hex cases, mixed and double-encoded forms), one case per tuple of segment lengths
